@@ -15,6 +15,12 @@ ORD = sp.Function("Ord")
 
 
 def run(repo, R):
+    R.rule("INPUTS", "the public wrapper uses its parameters as given: no path replaces one by a filtered/re-ordered/scaled/defaulted copy")
+    from ..flow import check_wrapper_inputs
+    for _w in ['gbasis.integrals.moment.moment_integral']:
+        _wf = repo.func(_w)
+        R.note_function(_wf.qualname)
+        check_wrapper_inputs(repo, _wf, R)
     R.rule("Se", "moment-order step: M[e] = (P-C) M[e-1] + (i M[e-1,i-1] + j M[e-1,j-1] + (e-1) M[e-2])/(2p), C the moment origin")
     R.rule("S-LEAD", "each table axis is incremented with one centre throughout; the order axis with the moment origin")
     R.rule("AXTYPE-K", "the kernel is well-typed in the axis-provenance domain")
